@@ -1,0 +1,20 @@
+//! Verification hook (only with `--cfg turmoil_verif`): a thread-local log of the
+//! latency sampled for each SQE at `submit()` time. Read-only with respect to the
+//! simulation; the external harness drains it after every `submit`.
+
+use std::cell::RefCell;
+use std::time::Duration;
+
+thread_local! {
+    static LATENCIES: RefCell<Vec<(u64, Duration)>> = const { RefCell::new(Vec::new()) };
+}
+
+pub(crate) fn log_latency(user_data: u64, latency: Duration) {
+    LATENCIES.with(|l| l.borrow_mut().push((user_data, latency)));
+}
+
+/// Drain the `(user_data, sampled latency)` pairs logged since the last call,
+/// in scheduling order.
+pub fn take_latencies() -> Vec<(u64, Duration)> {
+    LATENCIES.with(|l| std::mem::take(&mut *l.borrow_mut()))
+}
